@@ -64,6 +64,10 @@ type hfile struct {
 	failKind      string
 	syncedAtFail  int
 	partialOnFail bool
+	// transient: only the armed call fails (e.g. a full disk that gets space
+	// again); later calls succeed. The writer must nevertheless never report a
+	// record as synced whose bytes (or earlier bytes) did not reach the file.
+	transient      bool
 	callsAfterFail int
 	nwrite, nsync  int
 	closed         int
@@ -80,9 +84,12 @@ func (f *hfile) Write(p []byte) (int, error) {
 	f.nwrite++
 	if f.failed {
 		f.callsAfterFail++
-		return 0, errInjected
+		if !f.transient {
+			return 0, errInjected
+		}
 	}
 	if f.armed == "write" || f.armed == "any" {
+		f.armed = ""
 		f.failed, f.failKind, f.syncedAtFail = true, "write", f.synced
 		n := 0
 		if f.partialOnFail {
@@ -107,9 +114,12 @@ func (f *hfile) Sync() error {
 	f.nsync++
 	if f.failed {
 		f.callsAfterFail++
-		return errInjected
+		if !f.transient {
+			return errInjected
+		}
 	}
 	if f.armed == "sync" || f.armed == "any" {
+		f.armed = ""
 		f.failed, f.failKind, f.syncedAtFail = true, "sync", f.synced
 		return errInjected
 	}
@@ -212,6 +222,7 @@ type runCfg struct {
 	FailKind    string  `json:"fail_kind"`
 	Window      int     `json:"external_mode_outstanding_sync_window"`
 	Partial     bool    `json:"partial_write_on_fail"`
+	Transient   bool    `json:"transient_fault"`
 	YieldPct    int     `json:"yield_percent"`
 	FileDelay   int     `json:"file_delay_percent"`
 	CloseLast   bool    `json:"close_with_last_queued_record"`
@@ -223,7 +234,7 @@ func TestVerifC20(t *testing.T) {
 	defer r.Finish(t)
 	r.Rule("case = one LogWriter run: mode (syncQueue with QueueSemChan | ExternalSyncQueueCallback), chunk format (recyclable | WAL-sync), N in {300,1000,3000,8000} (thorough also 20000, 100000) records of 1..300 bytes (some runs with 1..5KiB and 33..70KiB records), " +
 		"sync probability in {1, 1/2, 1/16}, WALMinSyncInterval in {0, 20us, 1ms}, seeded yields (Gosched / short sleeps) at the three verifhook sites of log_writer.go and inside the harness file's Write/Sync, Close issued right after the last record; " +
-		"one run in three arms a sticky I/O error (next Write / next Sync / next call fails, optionally after a partial write) when the producer reaches a seeded record index; in external mode the producer keeps at most W in {2,16,256,unbounded} sync requests outstanding. An evaluation = one released (or never released) sync waiter / one external callback; " +
+		"one run in three arms an I/O error, sticky or transient (only that one call fails) (next Write / next Sync / next call fails, optionally after a partial write) when the producer reaches a seeded record index; in external mode the producer keeps at most W in {2,16,256,unbounded} sync requests outstanding. An evaluation = one released (or never released) sync waiter / one external callback; " +
 		"distinct non-trivial = (case, configuration) of a run in which at least one waiter was released while the producer had already queued later records.")
 	thorough := vcommon.Thorough()
 	n := vcommon.Scale(80, 1200)
@@ -252,6 +263,7 @@ func TestVerifC20(t *testing.T) {
 			cfg.FailAtRec = rng.IntN(cfg.N)
 			cfg.FailKind = []string{"write", "sync", "any"}[rng.IntN(3)]
 			cfg.Partial = rng.IntN(2) == 0
+			cfg.Transient = rng.IntN(2) == 0
 		}
 		if cfg.MinSyncNS >= 1000000 {
 			// every sync round then takes >= 1ms and releases at most `bound`
@@ -319,7 +331,7 @@ func runOne(r *vcommon.Report, ci int, rng *rand.Rand, cfg runCfg) {
 
 	// Buffers are reused across runs: fresh multi-MB allocations under the race
 	// detector cost far more (shadow-memory page faults) than the run itself.
-	f := &hfile{partialOnFail: cfg.Partial, data: fileBuf[:0]}
+	f := &hfile{partialOnFail: cfg.Partial, transient: cfg.Transient, data: fileBuf[:0]}
 	arena := recArena[:0]
 	if cfg.FileDelay > 0 {
 		f.delay = func(string) { yield(cfg.FileDelay) }
